@@ -4,7 +4,7 @@ import common
 
 def run(tier, replay=None):
     res = common.Result('C12', tier, 'exploration')
-    configs, maxn = (64, 2048) if tier == 'quick' else (320, 16384)
+    configs, maxn = (64, 2048) if tier == 'quick' else (960, 16384)
     exe = common.hbuild('h_mem', ['h_mem.cpp', 'vsched.cpp', 'alloc.cpp'], 'plain')
     env = common.san_env(dict(VERIF_TMP=common.scratch_dir()))
     sh = common.Sharded(exe, lambda a, b: ['mem', common.seed(), a, b, maxn], configs, env=env, chunk=1, tag='c12', timeout=1500,
